@@ -1,12 +1,16 @@
 #!/bin/sh
 # usage: confirm_seed.sh <worktree> <demo cargo args...>
 # Confirms a seeded change: unit suite passes with it; the demonstration fails with it and passes without.
+# (uses a reverse-applied diff rather than git stash: the stash list is shared between worktrees)
 W=$1; shift
 cd "$W" || exit 2
 export CARGO_NET_OFFLINE=true CARGO_TARGET_DIR="$W/target"
+P="$W/.seed-change.diff"
+git diff -- src > "$P"
+[ -s "$P" ] || { echo "no change under src/"; exit 2; }
 echo "== with change: unit suite"; cargo test --workspace --offline 2>&1 | grep -E "^test result|FAILED|^error" | head -5
 echo "== with change: demonstration ($*)"; cargo test --offline "$@" 2>&1 | grep -E "^test result|FAILED|panicked|^error" | head -8
-git stash push -q -- src
+git apply -R "$P"
 echo "== without change: demonstration"; cargo test --offline "$@" 2>&1 | grep -E "^test result|FAILED|panicked|^error" | head -8
-git stash pop -q
+git apply "$P"
 git diff --stat -- src | tail -1
